@@ -99,6 +99,7 @@ def eval_point(tree, point, recognise, classify):
     (memoised: the continuation of an ignored switch is evaluated once); unrecognised conditions make the
     result contain ("?", text)."""
     memo = {}
+    decided = {}
     # A switch's choice matters later only while some expression still to be evaluated contains a phi that refers to it.
     # refs(seq, i) = ids of the switches that the decisions and classified results in seq[i:] depend on through phis.
     _expr_refs = {}
@@ -205,7 +206,8 @@ def eval_point(tree, point, recognise, classify):
             n = seq[i]
             k = n[0]
             if k == "switch":
-                ch = dict(choices)
+                ch = dict(decided)
+                ch.update(choices)
                 d = _fold(unstamp(path_value(n[1], ch) if ch else n[1]))
                 if d[0] == "const" and isinstance(d[1], (int, bool)):
                     v = int(d[1])
@@ -221,6 +223,8 @@ def eval_point(tree, point, recognise, classify):
                     break
                 if lab == "infeasible":
                     break
+                if lab is not None:
+                    decided[n[5]] = lab       # fixed by the abstract point: the same wherever this switch is met, so later phis may use it
                 labs = [lab] if lab is not None else list(n[2].keys())
                 synthetic = len(n[5]) > 4    # combinator switches and the switches of unrolled array loops: a later phi may read them
                 for l in labs:
@@ -232,7 +236,9 @@ def eval_point(tree, point, recognise, classify):
                 break
             if k == "ret":
                 if depth == 0:
-                    out.add(classify(unstamp(path_value(n[1], dict(choices)) if choices else n[1])))
+                    ch = dict(decided)
+                    ch.update(choices)
+                    out.add(classify(unstamp(path_value(n[1], ch) if ch else n[1])))
                     break
                 if not cont:
                     out.add(("end",))
